@@ -70,8 +70,9 @@ Inductive case :=
 | NexusReadIn (lowtab : list (text * text)) (tab : ns_table) (st : nx_state) (toks : list tok)
               (expect : res (list nx_obs))
 (* the TITLEs NexusWriter hands out to the blocks of a data set, in the order they are asked for;
-   `esctab` lists escape_nexus_token on the candidate titles (identity elsewhere) *)
-| TitleAssign (esctab : list (text * text)) (labels : list text) (expect : res (list text)).
+   `esctab` lists escape_nexus_token on the candidate titles (identity elsewhere); `ci`: the source
+   compares titles after .upper() (probed in the source by the harness) *)
+| TitleAssign (ci : bool) (esctab : list (text * text)) (labels : list text) (expect : res (list text)).
 
 Definition case_run_text (c : case) : res text :=
   match c with
@@ -119,7 +120,7 @@ Definition esc_of (tab : list (text * text)) (l : text) : text :=
 
 Definition case_run_titles (c : case) : res (list text) :=
   match c with
-  | TitleAssign et labels _ => assign_titles (esc_of et) labels []
+  | TitleAssign ci et labels _ => assign_titles (esc_of et) (if ci then ucase else fun t => t) labels []
   | _ => Err OtherErr
   end.
 
@@ -129,7 +130,7 @@ Definition case_ok (c : case) : bool :=
   | PhylipWrite _ _ _ e => res_eqb text_eqb (case_run_text c) e
   | FastaRead _ _ _ e | PhylipRead _ _ _ _ e => res_eqb matrix_eqb (case_run_matrix c) e
   | NexusWrite _ _ _ _ _ e => res_eqb toks_eqb (case_run_tokens c) e
-  | TitleAssign _ _ e => res_eqb toks_eqb (case_run_titles c) e
+  | TitleAssign _ _ _ e => res_eqb toks_eqb (case_run_titles c) e
   | NexusRead _ _ _ e | NexusReadIn _ _ _ _ e =>
     match case_run_blocks c, e with
     | Ok brs, Ok os => forall2b nx_obs_eqb brs os
